@@ -21,6 +21,16 @@ def gen_world_desc(rng, nlooms=(1, 2), ncpus=(1, 4), nprocs=(1, 2), nthreads=(1,
     rank = 0
     pid = 100 + rng.below(50)
     tid = 1000 + rng.below(500)
+    # identifiers with different numbers of digits (lexicographic order of the directories != numeric order)
+    wild = rng.chance(40)
+    used_ids = set()
+
+    def wild_id():
+        while True:
+            x = rng.choice([rng.randint(1, 9), rng.randint(10, 99), rng.randint(100, 999), rng.randint(1000, 99999)])
+            if x not in used_ids:
+                used_ids.add(x)
+                return x
     names = ["node%d.%d" % (rng.below(4), i) for i in range(nl)]
     allprocs = []
     for li in range(nl):
@@ -34,8 +44,8 @@ def gen_world_desc(rng, nlooms=(1, 2), ncpus=(1, 4), nprocs=(1, 2), nthreads=(1,
             ths = []
             for _ in range(rng.randint(*nthreads)):
                 tid += 1 + rng.below(7)
-                ths.append(tid)
-            p = {"pid": pid, "appid": 1 + rng.below(3), "rank": None, "nranks": None, "threads": ths}
+                ths.append(wild_id() if wild else tid)
+            p = {"pid": wild_id() if wild else pid, "appid": 1 + rng.below(3), "rank": None, "nranks": None, "threads": ths}
             procs.append(p)
             allprocs.append(p)
         looms.append({"name": names[li], "phyids": phy, "procs": procs, "skew": 0})
